@@ -203,7 +203,8 @@ def make_overlay(dst, extra_tests=None, prop=None):
     return dst
 
 
-CHECK_RE = re.compile(r"^Check (\d+): (\S+)\n\t - Status: (\w+)\n\t - Description: \"(.*)\"\n(?:\t - Location: (.*)\n)?", re.M)
+# (check names may contain spaces, e.g. `std::vec::Vec::<T, A>::insert_mut::assert_failed.assertion.1`)
+CHECK_RE = re.compile(r"^Check (\d+): ([^\n]+)\n\t - Status: (\w+)\n\t - Description: \"(.*)\"\n(?:\t - Location: (.*)\n)?", re.M)
 
 
 def parse_log(text, h):
